@@ -109,7 +109,7 @@ def step (st : St) (line : String) : St × String :=
         let noEl := match fd.toOpt with
           | some f => f.el.isNone
           | none => true
-        let inside := noEl && !partialTouches st.cfg.u st.sh nw fp.toOpt ex
+        let inside := noEl && !partialTouches st.cfg.u st.sh true nw fp.toOpt ex
         (st, s!"region={if inside then "in" else "out"} unchanged={if ex == af then 1 else 0}")
     | _, _, _ => (st, "bad-op")
   | ["read", s] => match s.toNat? with
